@@ -1116,9 +1116,10 @@ impl<'arena> PrettyFormatter<'arena> {
             | Pattern::Hole(_) => RcDoc::text("_"),
             | Pattern::Var(definition) => self.definition(*definition),
             | Pattern::Named(Named(field, inner)) => self.named_pattern(pattern, field, *inner),
-            | Pattern::Ctor(Ctor(name, inner)) => {
-                self.constructor(name).append(self.pattern_constructor_argument(*inner))
-            }
+            | Pattern::Ctor(Ctor(name, inner)) => self
+                .constructor(name)
+                .append(self.constructor_argument_gap((*inner).into()))
+                .append(self.pattern_constructor_argument(*inner)),
             | Pattern::Project(ProjectionPattern(field, inner)) => {
                 self.projection_pattern(pattern, field, *inner)
             }
@@ -1420,9 +1421,10 @@ impl<'arena> PrettyFormatter<'arena> {
             | Term::Block(Block(body)) => self.block(term, "begin", *body, "end"),
             | Term::Data(Data { arms }) => self.block_like(self.data(term, arms)),
             | Term::CoData(CoData { arms }) => self.block_like(self.codata(term, arms)),
-            | Term::Ctor(Ctor(name, body)) => {
-                self.constructor(name).append(self.term_constructor_argument(*body))
-            }
+            | Term::Ctor(Ctor(name, body)) => self
+                .constructor(name)
+                .append(self.constructor_argument_gap((*body).into()))
+                .append(self.term_constructor_argument(*body)),
             | Term::Match(Match { scrut, arms }) => {
                 self.block_like(self.matcher(term, *scrut, arms))
             }
@@ -1579,7 +1581,7 @@ impl<'arena> PrettyFormatter<'arena> {
 
     fn term_constructor_argument(&self, body: TermId) -> RcDoc<'arena> {
         match &self.arena.terms[&body] {
-            | Term::Paren(Paren(terms)) => self.with_constructor_argument_comments(
+            | Term::Paren(Paren(terms)) => self.with_leading_comments(
                 body.into(),
                 self.delimited(
                     Some(body.into()),
@@ -1596,14 +1598,11 @@ impl<'arena> PrettyFormatter<'arena> {
     /// Comments leading a constructor argument follow the constructor name directly.
     /// `-` continues an identifier, so `+K` must be separated from a `--` comment or
     /// the name would absorb it.
-    fn with_constructor_argument_comments(
-        &self, entity: EntityId, document: RcDoc<'arena>,
-    ) -> RcDoc<'arena> {
-        let comments = self.arena.trivia.leading_comments(entity);
-        if comments.is_empty() {
-            document
+    fn constructor_argument_gap(&self, argument: EntityId) -> RcDoc<'arena> {
+        if self.arena.trivia.leading_comments(argument).is_empty() {
+            RcDoc::nil()
         } else {
-            RcDoc::text(" ").append(self.with_comments(comments, document))
+            RcDoc::text(" ")
         }
     }
 
@@ -1612,11 +1611,12 @@ impl<'arena> PrettyFormatter<'arena> {
             | Pattern::Alias(_) | Pattern::Manifest(_) => self.annotated_pattern(body),
             | Pattern::Paren(Paren(patterns)) => match patterns.as_slice() {
                 | [inner] if self.should_elide_parentheses(body.into(), (*inner).into()) => self
-                    .with_constructor_argument_comments(
+                    .with_leading_comments(
                         body.into(),
-                        self.pattern_constructor_argument(*inner),
+                        self.constructor_argument_gap((*inner).into())
+                            .append(self.pattern_constructor_argument(*inner)),
                     ),
-                | _ => self.with_constructor_argument_comments(
+                | _ => self.with_leading_comments(
                     body.into(),
                     self.delimited(
                         Some(body.into()),
